@@ -3,7 +3,7 @@ import calendar, collections, copy, itertools, json, math, os, random, re, subpr
 from qa import samp
 from datetime import date, datetime, timedelta
 import grammar as G
-from realparse import parse_many, T, I, _init, to_ts
+from realparse import parse_many, T, I, _init, to_ts, label_free
 from sweeps import finish, dec_time, dec_interval, dt_of
 from qa import REPO, VERIF
 
@@ -363,8 +363,8 @@ def c10_case(case):
     ws = [x[1] for x in items if x[0] == "w"]; tg = [x[1] for x in items if x[0] == "t"]; e = [x[1] for x in items if x[0] == "e"]
     ordinary = [x[1] for x in items if x[0] == "o"]
     norm = C._preprocess_string(txt)
-    ms = C._match_regex(re.sub('#[a-zA-Z0-9_-]+', '', norm).strip(), _regex)
-    stripped = re.sub('#[a-zA-Z0-9_-]+', '', norm).strip()
+    stripped = label_free(norm)
+    ms = C._match_regex(stripped, _regex)
     for w in ws:
         for m_ in re.finditer(re.escape(w), stripped):
             if any(m.mstart < m_.end() and m.mend > m_.start() for m in ms): return {"skip": "word-not-inert"}
@@ -1223,7 +1223,7 @@ def hull_spans(txt, ts, production, target):
     C = sys.modules["ctparse.ctparse"]
     from ctparse.rule import rules
     from ctparse.types import RegexMatch
-    txt0 = re.sub('#[a-zA-Z0-9_-]+', '', C._preprocess_string(txt)).strip()
+    txt0 = label_free(C._preprocess_string(txt))
     ids = [x for x in production if isinstance(x, int)]
     names = [x for x in production if isinstance(x, str)]
     ms = own_matches(txt0)
@@ -1250,7 +1250,7 @@ def brute(txt, ts, limit=6000):
     C = sys.modules["ctparse.ctparse"]
     from ctparse.rule import rules, _regex
     from ctparse.types import RegexMatch
-    txt0 = re.sub('#[a-zA-Z0-9_-]+', '', C._preprocess_string(txt)).strip()
+    txt0 = label_free(C._preprocess_string(txt))
     ms = own_matches(txt0)
     # own enumeration of maximal gap-free sequences
     n = len(ms)
@@ -1302,7 +1302,7 @@ def replay_trace(txt, ts, production, target):
     C = sys.modules["ctparse.ctparse"]
     from ctparse.rule import rules, _regex
     from ctparse.types import RegexMatch
-    txt0 = re.sub('#[a-zA-Z0-9_-]+', '', C._preprocess_string(txt)).strip()
+    txt0 = label_free(C._preprocess_string(txt))
     ids = [x for x in production if isinstance(x, int)]
     names = [x for x in production if isinstance(x, str)]
     ms = C._match_regex(txt0, _regex)
